@@ -1,3 +1,5 @@
+//go:build verif
+
 package c16
 
 import (
@@ -10,6 +12,7 @@ import (
 	"testing"
 
 	"github.com/mithrandie/csvq/lib/query"
+	"github.com/mithrandie/csvq/lib/value"
 	"pgregory.net/rapid"
 
 	"verif/internal/fw"
@@ -17,7 +20,13 @@ import (
 	"verif/internal/val"
 )
 
-func TestMain(m *testing.M) { fw.Main(m) }
+// Every value handed to value.Discard is overwritten with a poison value and kept out of the pool
+// (hook of the verif build): a value object that is discarded while a cursor snapshot (or a variable)
+// still refers to it shows up deterministically instead of only when the pool happens to reuse it.
+func TestMain(m *testing.M) {
+	value.VerifPoison = true
+	fw.Main(m)
+}
 
 // ---------------------------------------------------------------------
 // The case: an initial table and a whole history of statements, generated
@@ -95,7 +104,7 @@ type row struct {
 }
 
 type opT struct {
-	K         string `json:"k"`                    // declare open fetch loopfetch close dispose while status dml alter mku rmu alloc commit rollback setvar
+	K         string `json:"k"`                    // declare open fetch loopfetch close dispose while shadowloop status dml alter mku rmu alloc dispvar commit rollback setvar
 	Cur       string `json:"cur,omitempty"`        // c1 | c2
 	Q         int    `json:"q,omitempty"`          // declare: index into queries / prepared
 	Prep      bool   `json:"prep,omitempty"`       // declare: cursor for prepared statement s<Q>
@@ -103,6 +112,9 @@ type opT struct {
 	UsingMode string `json:"using_mode,omitempty"` // open of a prepared-statement cursor: "" one value, "none" no USING, "two" two values
 	Off       string `json:"off,omitempty"`        // fetch ABSOLUTE/RELATIVE: offset given as "" literal N, a/b (variable filled by an earlier fetch), k (@k), kexpr (@k - 1), litexpr (N + 0)
 	Reps      int    `json:"reps,omitempty"`       // loopfetch: iterations of the same FETCH statement
+	Act       string `json:"act,omitempty"`        // while: what the body does to the loop cursor: "" dispose close reopen
+	At        int    `json:"at,omitempty"`         // while/shadowloop: in which iteration
+	Via       string `json:"via,omitempty"`        // while: "direct" (unconditionally in the body) or "if" (inside a nested IF)
 	RefAfter  bool   `json:"ref_after,omitempty"`  // open: the reference SELECT runs right after OPEN instead of right before
 	Pos       string `json:"pos,omitempty"`        // fetch: "" NEXT PRIOR FIRST LAST ABSOLUTE RELATIVE
 	N         int    `json:"n,omitempty"`          // fetch: number; setvar: value
@@ -110,7 +122,7 @@ type opT struct {
 	DeclVar   bool   `json:"decl_var,omitempty"`   // while: WHILE VAR ...
 	Break     int    `json:"break,omitempty"`      // while: BREAK after this many iterations (0: never)
 	Body      string `json:"body,omitempty"`       // while: DML in the loop body: "" updall delall ins
-	What      string `json:"what,omitempty"`       // status: open range count; dml: insert update updall updid delete delall; alter: drop add ren renback; mku: file temp; alloc: inc mix sel
+	What      string `json:"what,omitempty"`       // status: open range count; dml: insert update updall updid delete delall; alter: drop add ren renback; mku: file temp; alloc: inc mix sel str strsel print; dispvar: a b both o
 	Print     bool   `json:"print,omitempty"`      // status: PRINT instead of SELECT
 	ID        int    `json:"id,omitempty"`         // dml
 	Tag       int    `json:"tag,omitempty"`        // dml
@@ -245,6 +257,15 @@ func genWhile(t *rapid.T, cur string) opT {
 		o.Break = uni(t, "breakAt", 1, 4)
 	}
 	o.Body = weighted(t, "body", []wt{{"", 55}, {"updall", 20}, {"delall", 10}, {"ins", 15}})
+	if act := weighted(t, "act", []wt{{"", 55}, {"dispose", 18}, {"close", 12}, {"reopen", 15}}); act != "" {
+		// the body disposes / closes / closes and reopens the loop cursor in some iteration
+		o.Act, o.Break, o.Body = act, 0, ""
+		o.At = []int{1, 1, 1, 1, 2, 2, 3}[uni(t, "at", 0, 6)]
+		o.Via = "if"
+		if act != "reopen" && chance(t, "direct", 35) {
+			o.Via = "direct"
+		}
+	}
 	return o
 }
 
@@ -293,7 +314,11 @@ func genCase(t *rapid.T) histCase {
 		case "dispose":
 			*g = gcur{}
 		case "while":
-			if g.open {
+			if g.open && o.Act == "dispose" {
+				*g = gcur{}
+			} else if g.open && o.Act == "close" {
+				g.open = false
+			} else if g.open {
 				if o.Break > 0 {
 					g.ptr = min(g.ptr+o.Break, g.ln)
 				} else {
@@ -364,11 +389,11 @@ func genCase(t *rapid.T) histCase {
 		var kind string
 		switch {
 		case !g.declared:
-			kind = weighted(t, "k_undeclared", []wt{{"declare", 72}, {"open", 5}, {"fetch", 5}, {"close", 3}, {"dispose", 3}, {"status", 6}, {"while", 3}, {"dml", 2}, {"loopfetch", 1}})
+			kind = weighted(t, "k_undeclared", []wt{{"declare", 72}, {"open", 5}, {"fetch", 5}, {"close", 3}, {"dispose", 3}, {"status", 6}, {"while", 3}, {"dml", 2}, {"loopfetch", 1}, {"shadowloop", 3}})
 		case !g.open:
-			kind = weighted(t, "k_closed", []wt{{"open", 55}, {"fetch", 6}, {"status", 9}, {"while", 3}, {"dispose", 4}, {"close", 3}, {"declare", 2}, {"dml", 7}, {"setvar", 4}, {"commit", 1}, {"rollback", 1}, {"alter", 2}, {"mku", 1}, {"rmu", 1}, {"loopfetch", 1}})
+			kind = weighted(t, "k_closed", []wt{{"open", 55}, {"fetch", 6}, {"status", 9}, {"while", 3}, {"dispose", 4}, {"close", 3}, {"declare", 2}, {"dml", 7}, {"setvar", 4}, {"commit", 1}, {"rollback", 1}, {"alter", 2}, {"mku", 1}, {"rmu", 1}, {"loopfetch", 1}, {"shadowloop", 3}})
 		default:
-			kind = weighted(t, "k_open", []wt{{"fetch", 40}, {"dml", 15}, {"status", 9}, {"while", 6}, {"close", 5}, {"open", 3}, {"commit", 2}, {"rollback", 3}, {"dispose", 2}, {"declare", 1}, {"setvar", 2}, {"alloc", 6}, {"loopfetch", 4}, {"alter", 1}, {"mku", 1}})
+			kind = weighted(t, "k_open", []wt{{"fetch", 40}, {"dml", 15}, {"status", 9}, {"while", 8}, {"close", 5}, {"open", 3}, {"commit", 2}, {"rollback", 3}, {"dispose", 2}, {"declare", 1}, {"setvar", 2}, {"alloc", 6}, {"loopfetch", 4}, {"alter", 1}, {"mku", 1}, {"shadowloop", 3}, {"dispvar", 3}})
 		}
 		var o opT
 		switch kind {
@@ -425,6 +450,29 @@ func genCase(t *rapid.T) histCase {
 			}
 		case "fetch":
 			o = genFetch(t, name, g)
+			if g.open && o.NVars == 2 && chance(t, "dispburst", 10) {
+				// the variables now (probably) hold the value objects of a snapshot row: dispose them, create
+				// values of the same types and read the same row again
+				pending = append(pending, opT{K: "dispvar", What: weighted(t, "dispwhat", []wt{{"both", 40}, {"a", 20}, {"b", 20}, {"o", 20}})},
+					opT{K: "alloc", What: "str"}, opT{K: "alloc", What: []string{"strsel", "print", "mix"}[uni(t, "alloc2", 0, 2)]})
+				again := opT{K: "fetch", Cur: name, NVars: 2}
+				switch weighted(t, "reread", []wt{{"rel0", 40}, {"first", 20}, {"priornext", 20}, {"abs", 20}}) {
+				case "rel0":
+					again.Pos = "RELATIVE"
+				case "first":
+					again.Pos = "FIRST"
+				case "priornext":
+					pending = append(pending, opT{K: "fetch", Cur: name, NVars: 2, Pos: "PRIOR"})
+					again.Pos = "NEXT"
+				default:
+					again.Pos, again.N = "ABSOLUTE", max(move(g.ptr, o.Pos, o.N, g.ln), 0)
+				}
+				pending = append(pending, again)
+			}
+		case "shadowloop":
+			o = opT{K: "shadowloop", Cur: name, At: uni(t, "shadowat", 1, 4), Q: []int{0, 1, 2, 3, 4, 5, 6, 7, 12, 13}[uni(t, "shadowq", 0, 9)]}
+		case "dispvar":
+			o = opT{K: "dispvar", What: weighted(t, "dispwhat", []wt{{"both", 40}, {"a", 20}, {"b", 20}, {"o", 20}})}
 		case "loopfetch":
 			o = genLoopFetch(t, name, g)
 		case "close":
@@ -451,7 +499,7 @@ func genCase(t *rapid.T) histCase {
 		case "rmu":
 			o = opT{K: "rmu"}
 		case "alloc":
-			o = opT{K: "alloc", What: weighted(t, "alloc", []wt{{"inc", 40}, {"mix", 30}, {"sel", 30}})}
+			o = opT{K: "alloc", What: weighted(t, "alloc", []wt{{"inc", 25}, {"mix", 20}, {"sel", 20}, {"str", 15}, {"strsel", 10}, {"print", 10}})}
 		case "commit", "rollback":
 			o = opT{K: kind}
 		case "setvar":
@@ -489,6 +537,7 @@ type curM struct {
 	fetched     int
 	dml         int // data changes on t since OPEN
 	failedOpens int // OPENs that failed with their query since the last successful one
+	lastOpen    opT // the OPEN that produced the snapshot
 }
 
 func (m *curM) ln() int { return len(m.snap) }
@@ -752,7 +801,7 @@ func checkHist(c histCase) (fw.Outcome, *fw.Violation) {
 		}
 		setup = append(setup, "COMMIT;")
 	}
-	setup = append(setup, fmt.Sprintf("VAR @a, @b, @n, @k := 0, @o, @p, @q, @lim := %d;", c.Lim))
+	setup = append(setup, fmt.Sprintf("VAR @a, @b, @n, @k := 0, @o, @p, @q, @s, @lim := %d;", c.Lim))
 	for i, p := range prepared {
 		setup = append(setup, fmt.Sprintf("PREPARE s%d FROM %s;", i, val.QuoteSQL(p)))
 	}
@@ -980,7 +1029,7 @@ func checkHist(c histCase) (fw.Outcome, *fw.Violation) {
 				if v := expectErr(e.exec(stmt), stmt, errUndeclared, "open_undeclared"); v != nil {
 					return o, v
 				}
-				class("err:undeclared:open")
+				class("err:undeclared:other")
 				tok("O?")
 			case m.open:
 				if v := expectErr(e.exec(stmt), stmt, errOpen, "open_open"); v != nil {
@@ -1032,6 +1081,7 @@ func checkHist(c histCase) (fw.Outcome, *fw.Violation) {
 					m.failedOpens = 0
 				}
 				m.open = true
+				m.lastOpen = op
 				m.snap = rr.Views[0].Rows
 				m.ptrs = []int{-1}
 				m.fetched = fNo
@@ -1234,7 +1284,7 @@ func checkHist(c histCase) (fw.Outcome, *fw.Violation) {
 					nontrivDML = true
 				}
 			}
-			class("loopfetch:" + op.Pos)
+			class("loopfetch")
 			tok("L")
 
 		case "close":
@@ -1245,18 +1295,18 @@ func checkHist(c histCase) (fw.Outcome, *fw.Violation) {
 				if v := expectErr(r, stmt, errUndeclared, "close_undeclared"); v != nil {
 					return o, v
 				}
-				class("err:undeclared:close_dispose")
+				class("err:undeclared:other")
 				tok("C?")
 			case m.open:
 				if r.Err != nil {
 					return o, fw.V("close_error", "%s of an open cursor failed: %v%s", stmt, r.Err, e.tail())
 				}
 				m.open, m.snap, m.ptrs = false, nil, nil
-				class("close:open")
+				class("close")
 				tok("C")
 			default:
 				// closing a closed cursor: not documented, error or no error; it stays closed
-				class("close:closed")
+				class("close")
 				tok("C!")
 			}
 
@@ -1268,7 +1318,7 @@ func checkHist(c histCase) (fw.Outcome, *fw.Violation) {
 				if v := expectErr(r, stmt, errUndeclared, "dispose_undeclared"); v != nil {
 					return o, v
 				}
-				class("err:undeclared:close_dispose")
+				class("err:undeclared:other")
 				tok("X?")
 			case r.Err != nil:
 				if !m.open {
@@ -1301,6 +1351,48 @@ func checkHist(c histCase) (fw.Outcome, *fw.Violation) {
 			if op.Break > 0 {
 				brk = fmt.Sprintf(" @n := @n + 1; IF @n >= %d THEN BREAK; END IF;", op.Break)
 			}
+			// the body may dispose, close or close-and-reopen the very cursor the loop runs over: every
+			// iteration fetches from whatever the cursor name refers to at that moment
+			var newSnap [][]val.Val
+			var reopenErr error
+			at := op.At
+			if op.Via == "direct" {
+				at = 1
+			}
+			if op.Act != "" {
+				if m.open && len(m.ptrs) > 1 {
+					class("left_out:pointer_open")
+					continue
+				}
+				action := "DISPOSE CURSOR " + op.Cur + ";"
+				switch op.Act {
+				case "close":
+					action = "CLOSE " + op.Cur + ";"
+				case "reopen":
+					action = "CLOSE " + op.Cur + "; OPEN " + op.Cur + ";"
+					if m.declared && m.open {
+						ostmt, ref, rowsStmt, _ := openTexts(m, m.lastOpen)
+						action = "CLOSE " + op.Cur + "; " + ostmt
+						// no statement of the loop changes a table: the result the re-OPEN will see
+						rr := e.exec(ref)
+						if rr.Err == nil && rowsStmt != "" {
+							rr = e.exec(rowsStmt)
+						}
+						if rr.Err != nil {
+							reopenErr = rr.Err
+						} else if len(rr.Views) != 1 {
+							return outOfDomain("reference_select_shape")
+						} else {
+							newSnap = rr.Views[0].Rows
+						}
+					}
+				}
+				if op.Via == "direct" {
+					brk = " " + action
+				} else {
+					brk = fmt.Sprintf(" @n := @n + 1; IF @n == %d THEN %s END IF;", op.At, action)
+				}
+			}
 			// (results of a SELECT inside a loop are not stored by child processors: the loop prints)
 			stmt := fmt.Sprintf("WHILE %s%s, %s IN %s DO PRINT %s; PRINT %s;%s%s END WHILE;", decl, va, vb, op.Cur, va, vb, body, brk)
 			if r := e.exec("@n := 0;"); r.Err != nil {
@@ -1320,7 +1412,7 @@ func checkHist(c histCase) (fw.Outcome, *fw.Violation) {
 				if len(got) > 0 {
 					return o, fw.V("while_undeclared_delivered_data", "%s executed its body%s", stmt, e.tail())
 				}
-				class("err:undeclared:while")
+				class("err:undeclared:other")
 				tok("W?")
 				continue
 			}
@@ -1333,6 +1425,84 @@ func checkHist(c histCase) (fw.Outcome, *fw.Violation) {
 				}
 				class("err:closed:while")
 				tok("W?")
+				continue
+			}
+			if op.Act != "" {
+				p := m.ptrs[0]
+				var remaining [][]val.Val
+				if p+1 <= m.ln() {
+					remaining = m.snap[p+1:]
+				}
+				triggered := len(remaining) >= at
+				want := remaining
+				wantErr := 0 // -1: some error
+				if triggered {
+					want = remaining[:at]
+					switch {
+					case op.Act == "dispose":
+						wantErr = errUndeclared
+					case op.Act == "close":
+						wantErr = errClosed
+					case reopenErr != nil:
+						wantErr = -1
+					default:
+						want = append(append([][]val.Val(nil), want...), newSnap...)
+					}
+				}
+				ok := len(want) == len(got)
+				for i := 0; ok && i < len(want); i++ {
+					ok = printedEq(want[i], got[i])
+				}
+				if !ok {
+					var gs, ws []string
+					for _, g := range got {
+						gs = append(gs, rowStr(g))
+					}
+					for _, w := range want {
+						ws = append(ws, rowStr(w))
+					}
+					return o, fw.V("while_in_cursor_changed_in_body", "%s with pointer at %d visited [%s]; expected [%s] (the body does %q to the cursor in iteration %d; error: %v)%s",
+						stmt, p, strings.Join(gs, " "), strings.Join(ws, " "), op.Act, at, r.Err, e.tail())
+				}
+				switch {
+				case wantErr == 0 && r.Err != nil:
+					return o, fw.V("while_error", "%s on an open cursor failed: %s %v%s", stmt, run.ErrClass(r.Err), r.Err, e.tail())
+				case wantErr != 0 && r.Err == nil:
+					return o, fw.V("while_in_cursor_changed_in_body_no_error", "%s ended without an error although its body did %q to the cursor in iteration %d and rows were left%s", stmt, op.Act, at, e.tail())
+				case wantErr > 0 && errNum(r.Err) != wantErr:
+					return o, fw.V("while_in_cursor_changed_in_body_error_class", "%s: %s %v, expected error number %d%s", stmt, run.ErrClass(r.Err), r.Err, wantErr, e.tail())
+				}
+				if len(got) > 0 && m.dml > 0 {
+					nontrivDML = true
+				}
+				switch {
+				case !triggered:
+					last := max(p, m.ln()-1)
+					m.ptrs = uniq([]int{last, m.ln()})
+					if len(got) > 0 {
+						m.fetched = fYes
+					} else if m.fetched == fNo {
+						m.fetched = fMaybe
+					}
+					class("while:act_not_reached")
+				case op.Act == "dispose":
+					*m = curM{}
+					class("while:dispose_in_body")
+				case op.Act == "close" || reopenErr != nil:
+					m.open, m.snap, m.ptrs = false, nil, nil
+					if op.Act == "close" {
+						class("while:close_in_body")
+					} else {
+						class("while:reopen_in_body_failed")
+					}
+				default:
+					m.snap = newSnap
+					m.dml = 0
+					m.ptrs = uniq([]int{len(newSnap) - 1, len(newSnap)})
+					m.fetched = fYes
+					class("while:reopen_in_body")
+				}
+				tok("W" + op.Act[:1])
 				continue
 			}
 			bodyFailed := false
@@ -1551,17 +1721,127 @@ func checkHist(c histCase) (fw.Outcome, *fw.Violation) {
 			if r.Affected > 0 {
 				dirty = true
 				dataChanged()
-				class("dml:" + op.What)
+				class("dml:changed")
 				tok("M")
 			} else {
 				class("dml:noop")
 				tok("m")
 			}
 
+		case "shadowloop":
+			// an inner cursor of the same name, declared in a nested block, is looped over and disposed by
+			// the loop body: from the next iteration on the name refers to the outer cursor (if any)
+			if m.open && len(m.ptrs) > 1 {
+				class("left_out:pointer_open")
+				continue
+			}
+			rr := e.exec(queries[op.Q] + ";")
+			if rr.Err == nil && len(rr.Views) != 1 {
+				return outOfDomain("reference_select_shape")
+			}
+			if r := e.exec("@n := 0;"); r.Err != nil {
+				return o, fw.Harness("%v%s", r.Err, e.tail())
+			}
+			stmt := fmt.Sprintf("IF TRUE THEN DECLARE %s CURSOR FOR %s; OPEN %s; WHILE @a, @b IN %s DO PRINT @a; PRINT @b; @n := @n + 1; IF @n == %d THEN DISPOSE CURSOR %s; END IF; END WHILE; END IF;",
+				op.Cur, queries[op.Q], op.Cur, op.Cur, op.At, op.Cur)
+			e.s.Out.Reset()
+			r := e.exec(stmt)
+			got, perr := parsePrinted(e.s.Out.String())
+			e.trace[len(e.trace)-1] += fmt.Sprintf("   printed %q", e.s.Out.String())
+			if perr != nil {
+				return o, fw.Harness("%v%s", perr, e.tail())
+			}
+			{
+				var want [][]val.Val
+				wantErr := 0
+				outerRows := 0
+				cl := "shadow:inner_exhausted"
+				switch {
+				case rr.Err != nil:
+					wantErr = -1
+					cl = "shadow:inner_open_failed"
+				case len(rr.Views[0].Rows) < op.At:
+					want = rr.Views[0].Rows
+				default:
+					want = append(want, rr.Views[0].Rows[:op.At]...)
+					switch {
+					case !m.declared:
+						wantErr = errUndeclared
+						cl = "shadow:then_undeclared"
+					case !m.open:
+						wantErr = errClosed
+						cl = "shadow:then_outer_closed"
+					default:
+						p := m.ptrs[0]
+						if p+1 <= m.ln() {
+							want = append(want, m.snap[p+1:]...)
+							outerRows = len(m.snap[p+1:])
+						}
+						cl = "shadow:then_outer_open"
+					}
+				}
+				ok := len(want) == len(got)
+				for i := 0; ok && i < len(want); i++ {
+					ok = printedEq(want[i], got[i])
+				}
+				if !ok {
+					var gs, ws []string
+					for _, g := range got {
+						gs = append(gs, rowStr(g))
+					}
+					for _, w := range want {
+						ws = append(ws, rowStr(w))
+					}
+					return o, fw.V("while_in_shadowing_cursor_disposed", "%s visited [%s]; expected [%s] (inner cursor disposed in iteration %d, outer cursor declared=%v open=%v pointer %v; error: %v)%s",
+						stmt, strings.Join(gs, " "), strings.Join(ws, " "), op.At, m.declared, m.open, m.ptrs, r.Err, e.tail())
+				}
+				switch {
+				case wantErr == 0 && r.Err != nil:
+					return o, fw.V("shadow_loop_error", "%s failed: %s %v%s", stmt, run.ErrClass(r.Err), r.Err, e.tail())
+				case wantErr != 0 && r.Err == nil:
+					return o, fw.V("while_in_shadowing_cursor_disposed_no_error", "%s ended without an error; after the inner cursor is disposed the name refers to a cursor that is declared=%v open=%v%s", stmt, m.declared, m.open, e.tail())
+				case wantErr > 0 && errNum(r.Err) != wantErr:
+					return o, fw.V("while_in_shadowing_cursor_disposed_error_class", "%s: %s %v, expected error number %d%s", stmt, run.ErrClass(r.Err), r.Err, wantErr, e.tail())
+				}
+				if cl == "shadow:then_outer_open" {
+					p := m.ptrs[0]
+					m.ptrs = uniq([]int{max(p, m.ln()-1), m.ln()})
+					if outerRows > 0 {
+						m.fetched = fYes
+						if m.dml > 0 {
+							nontrivDML = true
+						}
+					} else if m.fetched == fNo {
+						m.fetched = fMaybe
+					}
+				}
+				class(cl)
+				tok("H")
+			}
+
+		case "dispvar":
+			// DISPOSE of a variable that a FETCH may have bound to the value objects of a snapshot row
+			var sqls []string
+			switch op.What {
+			case "a", "b":
+				sqls = []string{"DISPOSE @" + op.What + ";", "VAR @" + op.What + ";"}
+			case "o":
+				sqls = []string{"@o := @a;", "DISPOSE @o;", "VAR @o;"}
+			default:
+				sqls = []string{"DISPOSE @a;", "DISPOSE @b;", "VAR @a, @b;"}
+			}
+			for _, q := range sqls {
+				if r := e.exec(q); r.Err != nil {
+					return o, fw.Harness("%s: %v%s", q, r.Err, e.tail())
+				}
+			}
+			class("dispose_variable")
+			tok("P")
+
 		case "alter":
 			sql := map[string]string{"drop": "ALTER TABLE t DROP v;", "add": "ALTER TABLE t ADD v DEFAULT 'z';", "ren": "ALTER TABLE t RENAME v TO w;", "renback": "ALTER TABLE t RENAME w TO v;"}[op.What]
 			if r := e.exec(sql); r.Err != nil {
-				class("alter:error")
+				class("dml:error")
 			} else {
 				dirty = true
 				dataChanged()
@@ -1575,7 +1855,7 @@ func checkHist(c histCase) (fw.Outcome, *fw.Violation) {
 				first = "DECLARE u VIEW (id, v);"
 			}
 			if r := e.exec(first); r.Err != nil {
-				class("table_u:error")
+				class("table_u:other")
 			} else {
 				e.exec("INSERT INTO u VALUES (1, 'u1'), (2, 'u2');")
 				class("table_u:created")
@@ -1584,13 +1864,16 @@ func checkHist(c histCase) (fw.Outcome, *fw.Violation) {
 
 		case "rmu":
 			if r := e.exec("DISPOSE VIEW u;"); r.Err == nil {
-				class("table_u:disposed")
+				class("table_u:other")
 				tok("u")
 			}
 
 		case "alloc":
 			// statements that allocate integer values between the fetches
-			sql := map[string]string{"inc": "@k := @k + 1;", "mix": "@k := (@k * 3 + 1) % 7;", "sel": "SELECT 7 + 8, 9 * 2, 0 - 3, @k + 100;"}[op.What]
+			sql := map[string]string{"inc": "@k := @k + 1;", "mix": "@k := (@k * 3 + 1) % 7;", "sel": "SELECT 7 + 8, 9 * 2, 0 - 3, @k + 100;",
+				"str":    "@s := 'p' || 'q' || STRING(@k); @s := UPPER(@s) || LOWER('XY') || 'a1';",
+				"strsel": "SELECT 'a' || 'b', UPPER('xyz'), LOWER('QW') || '1', 'a' || STRING(1 + 2), 2.5 * 2, 10 + @k;",
+				"print":  "PRINT 'v' || STRING(@k + 1) || TRIM('  u3  ');"}[op.What]
 			if r := e.exec(sql); r.Err != nil {
 				return o, fw.Harness("%v%s", r.Err, e.tail())
 			}
@@ -1659,7 +1942,7 @@ func TestC16CursorHistory(t *testing.T) {
 	fw.Run(t, fw.Spec[histCase]{
 		ID: "C16", Name: "cursor_history", Quick: 30000, Thorough: 600000,
 		Gen: genCase, Check: checkHist,
-		Rule: "a table t (CSV file with text cells or temporary table with integer ids, 0-6 rows) and a history of 4-31 operations on two cursors generated up front: DECLARE (14 queries incl. ORDER BY, LIMIT, variable, self-join, FROM-subquery, computed integer/float columns, and four that fail for some table states: division by zero in the select list / in WHERE, scalar subquery with too many records, a table u that may not exist; 3 prepared statements incl. SELECT ... INTO), OPEN [USING none/one/two values], FETCH in all six positions with offsets -9..9 given as literal, variable (also one filled by an earlier FETCH) or expression, the same FETCH statement repeated inside a WHILE loop with integer arithmetic in between, CLOSE, DISPOSE, WHILE IN (VAR, BREAK, DML in the body), IS [NOT] OPEN / IS [NOT] IN RANGE / COUNT via SELECT or PRINT, INSERT/UPDATE/DELETE/COMMIT/ROLLBACK and ALTER TABLE DROP/ADD/RENAME on t, creation/disposal of u, integer-allocating statements; executed statement by statement on one session next to a model {declared, open, snapshot, pointer set, fetched}. OPEN must fail exactly when the cursor's own query (run as a statement, resp. EXECUTE of the prepared statement with the same values, immediately before or after) fails; after a failed OPEN the cursor is closed (IS OPEN FALSE, then whatever the history does next: FETCH/COUNT/IS IN RANGE raise 11003, a later OPEN snapshots the current table); after a successful one the snapshot is that reference result with value types; every cursor still open at the end is re-listed by FETCH ABSOLUTE 0..len and compared with it. Non-trivial = a data change between OPEN and a later in-range fetch, or a relative fetch after the pointer left the view; distinct by the compressed operation/outcome sequence",
+		Rule: "a table t (CSV file with text cells or temporary table with integer ids, 0-6 rows) and a history of 4-31 operations on two cursors generated up front: DECLARE (14 queries incl. ORDER BY, LIMIT, variable, self-join, FROM-subquery, computed integer/float columns, and four that fail for some table states: division by zero in the select list / in WHERE, scalar subquery with too many records, a table u that may not exist; 3 prepared statements incl. SELECT ... INTO), OPEN [USING none/one/two values], FETCH in all six positions with offsets -9..9 given as literal, variable (also one filled by an earlier FETCH) or expression, the same FETCH statement repeated inside a WHILE loop with integer arithmetic in between, CLOSE, DISPOSE, WHILE IN (VAR, BREAK, DML in the body; bodies that DISPOSE, CLOSE or CLOSE+re-OPEN the loop cursor in some iteration, directly or in a nested IF: every iteration fetches from what the name refers to then; an inner cursor of the same name declared in a nested block, looped over and disposed in the body, after which the name means the outer cursor), DISPOSE of the variables a FETCH filled followed by value-creating expressions (concatenation, string functions, arithmetic in SET/PRINT/SELECT) and re-reads of the same row, IS [NOT] OPEN / IS [NOT] IN RANGE / COUNT via SELECT or PRINT, INSERT/UPDATE/DELETE/COMMIT/ROLLBACK and ALTER TABLE DROP/ADD/RENAME on t, creation/disposal of u, integer-allocating statements; executed statement by statement on one session next to a model {declared, open, snapshot, pointer set, fetched}. OPEN must fail exactly when the cursor's own query (run as a statement, resp. EXECUTE of the prepared statement with the same values, immediately before or after) fails; after a failed OPEN the cursor is closed (IS OPEN FALSE, then whatever the history does next: FETCH/COUNT/IS IN RANGE raise 11003, a later OPEN snapshots the current table); after a successful one the snapshot is that reference result with value types; every cursor still open at the end is re-listed by FETCH ABSOLUTE 0..len and compared with it. Non-trivial = a data change between OPEN and a later in-range fetch, or a relative fetch after the pointer left the view; distinct by the compressed operation/outcome sequence",
 		Assumptions: []string{
 			"variables after an out-of-range fetch: NULL (manual) and unchanged (implementation) are both admitted, record data is not",
 			"after a WHILE IN that ran to the end the pointer may be on the last record (literal reading of control-flow.md) or past it (FETCH NEXT semantics); the model keeps both until an observation decides",
@@ -1668,6 +1951,8 @@ func TestC16CursorHistory(t *testing.T) {
 			"a FETCH offset that is not a number (NULL, non-numeric text) must raise an error (11008, or the undeclared/closed error) and deliver nothing; accepted silently on an open cursor it discards the case; float-valued offsets are left out (conversion not documented)",
 			"statements on t or u that fail for a reason outside the property (DML after a column was dropped, CREATE of an existing file) are no-ops of the history; a DML failing inside a WHILE IN body ends the loop inside that iteration with the pointer on the record just visited",
 			"an OPEN and the plain execution of the cursor's query right before/after it succeed or fail together; the error class of a failed OPEN is not constrained",
+			"value.VerifPoison (verif build) is switched on: every value handed to value.Discard is overwritten with a poison value, so a premature Discard of a value a snapshot still refers to is seen at the next read instead of depending on pool reuse",
+			"WHILE IN loops whose body changes the loop cursor, and shadowing loops, are left out while the model does not know the pointer exactly (right after a completed WHILE IN)",
 			"the row order of an unordered SELECT over one small table at CPU 1 is the same in two consecutive evaluations",
 		},
 	})
